@@ -53,7 +53,8 @@ LawRoundTrip == Done => /\ DecodedRegions(P) = exp
                         /\ DecodesExactly(P, exp)
                         /\ CountsOK(P)
 \* header text never becomes memory contents, and is found in the S0 record
-LawHeader == Done => HeaderTexts(P) \subseteq {<<72, 68, 82>>} /\ rd.nhdr = Cardinality(HeaderTexts(P))
+LawHeader == Done => /\ HeaderTexts(P) \subseteq {<<72, 68, 82>>} /\ rd.nhdr = Cardinality(HeaderTexts(P))
+                     /\ rd.hdr = (IF rd.nhdr = 0 THEN <<>> ELSE <<72, 68, 82>>)
 \* every address a data record denotes fits the record's address field, the
 \* narrowest possible type is used unless the wide style was asked for, and
 \* the termination record matches the data records
@@ -150,6 +151,6 @@ InitKat == \E K \in Kats : /\ exp = K.exp /\ phase = "read" /\ lines = K.lines
 LawKat == Done => \A K \in Kats : (K.lines = lines /\ K.exp = exp) =>
               /\ Accepts(rd, exp) = K.accept /\ DeclAccepts(P, exp) = K.accept
               /\ rd.nbad = K.nbad /\ rd.nafter = K.nafter /\ rd.ncount = K.ncount /\ rd = RunP(P, exp)
-LawKatWide == Done /\ lines = KatWide => rd.entry = <<4660, 22136>> /\ rd.ttyp = 7 /\ rd.nhdr = 1
+LawKatWide == Done /\ lines = KatWide => rd.entry = <<4660, 22136>> /\ rd.ttyp = 7 /\ rd.nhdr = 1 /\ rd.hdr = <<104, 105>>
                                           /\ HeaderTexts(P) = {<<104, 105>>}
 =============================================================================
